@@ -221,7 +221,12 @@ EXTREME_OTHERS = ['null', 'true', 'false', '[]', '[1]', '[1,2,3]', '[[1,[2]],[[]
                   'duration("P1D")', 'duration("-PT0.000000001S")', 'duration("P18446744073709551615DT18446744073709551615H18446744073709551615M18446744073709551615S")',
                   'duration("-P18446744073709551615D")', 'duration("P1Y")', 'duration("P768614336404564650Y7M")', 'duration("-P768614336404564650Y7M")', 'duration("P9223372036854775807M")',
                   'duration("P106751991167D")', 'duration("P106751991168D")', 'duration("P99999999999999D")']
-BIGCTX = '{big: for i in 1..10000 return i, bigs: for i in 1..10000 return "s", deep: [[[[[[[[[[[[[[[[[[[[1]]]]]]]]]]]]]]]]]]]]}'
+BIGCTX = '{big: [%s], bigs: [%s], deep: [[[[[[[[[[[[[[[[[[[[1]]]]]]]]]]]]]]]]]]]]}' % (','.join(str(i % 100) for i in range(10000)), ','.join('"s"' for i in range(10000)))
+
+
+def ctx_for(e):
+    """the 10^4-element lists are bound only where the expression names them (the context text is 80 kB)"""
+    return BIGCTX if re.search(r'\b(big|bigs|deep)\b', e) else ''
 
 DST_ZONES = [('Europe/Warsaw', '2021-03-28', '02:30:00'), ('America/New_York', '2021-03-14', '02:30:00'), ('Australia/Lord_Howe', '2021-10-03', '02:15:00'),
              ('Pacific/Apia', '2011-12-30', '12:00:00'), ('America/Sao_Paulo', '2018-11-04', '00:30:00'), ('Asia/Tehran', '2021-03-22', '00:30:00'),
